@@ -375,7 +375,154 @@ def h3_text(maxlen=2, timeout=200, part=None, **kw):
                          {"glyph_text": "every string of length <= %d over the alphabet (two glyphs symbolic)" % maxlen, "codec": CODECS}, timeout, concretize=conc, part=part)
 
 
+# ------------------------------------------------------------------------------------------ H5 through the public entry point, in call histories
+API_LA = [None, {}, {"boxes_flow": None}, {"all_texts": True, "detect_vertical": True}]
+API_SINKS = [("text", None), ("bytes", "utf-8"), ("bytes", "latin-1")]
+API_PAGES = ["all", "second", "first-only"]
+API_HIST = ["alone", "after-other", "twice"]
+
+
+def _api_doc(which):
+    """two documents with the SAME object numbers: A shows 'A<B' and 'x&y' in Helvetica on two pages plus a form with a rectangle; B shows codes 65 66 67 in a Times font whose
+    /Differences make them & < and \u00e9"""
+    from lib.pdfgen import Ref, Stream, build
+    if which == 0:
+        font = {"Type": "Font", "Subtype": "Type1", "BaseFont": "Helvetica", "Encoding": "WinAnsiEncoding"}
+        c1, c2 = b"BT /F1 10 Tf 10 100 Td (A<B) Tj 0 -40 Td (x&y) Tj ET /Fm1 Do", b"BT /F1 12 Tf 20 50 Td (\"q\") Tj ET 0.5 w 5 5 30 20 re S"
+    else:
+        font = {"Type": "Font", "Subtype": "Type1", "BaseFont": "Times-Roman", "Encoding": {"Type": "Encoding", "Differences": [65, "ampersand", "less", "eacute"]}}
+        c1, c2 = b"BT /F1 10 Tf 10 100 Td (ABC) Tj ET /Fm1 Do", b"BT /F1 12 Tf 20 50 Td (CBA) Tj ET"
+    objs = {1: {"Type": "Catalog", "Pages": Ref(2)}, 2: {"Type": "Pages", "Kids": [Ref(4), Ref(6)], "Count": 2}, 3: font,
+            4: {"Type": "Page", "Parent": Ref(2), "MediaBox": [0, 0, 200, 200], "Contents": Ref(5), "Resources": {"Font": {"F1": Ref(3)}, "XObject": {"Fm1": Ref(8)}}},
+            5: Stream({}, c1),
+            6: {"Type": "Page", "Parent": Ref(2), "MediaBox": [0, 0, 200, 200], "Contents": Ref(7), "Resources": {"Font": {"F1": Ref(3)}}},
+            7: Stream({}, c2),
+            8: Stream({"Type": "XObject", "Subtype": "Form", "BBox": [0, 0, 50, 50], "Resources": {"Font": {"F1": Ref(3)}}}, b"1 1 20 10 re f BT /F1 8 Tf 2 2 Td (A) Tj ET")}
+    return build(objs)
+
+
+def _b2s(bbox):
+    return "%.3f,%.3f,%.3f,%.3f" % tuple(bbox)
+
+
+def structure_of(o):
+    """what the XML output has to hold for a layout item (tags, nesting, order and the attributes checked), read off the item"""
+    import pdfminer.layout as lt
+    if isinstance(o, lt.LTPage):
+        kids = [structure_of(c) for c in o]
+        if o.groups is not None:
+            def grp(g):
+                if isinstance(g, lt.LTTextBox):
+                    return ("textbox", {"id": str(g.index), "bbox": _b2s(g.bbox)}, [])
+                return ("textgroup", {"bbox": _b2s(g.bbox)}, [grp(m) for m in g])
+            kids.append(("layout", {}, [grp(g) for g in o.groups]))
+        return ("page", {"id": str(o.pageid), "bbox": _b2s(o.bbox), "rotate": str(o.rotate)}, kids)
+    if isinstance(o, lt.LTTextBox):
+        a = {"id": str(o.index), "bbox": _b2s(o.bbox)}
+        if isinstance(o, lt.LTTextBoxVertical):
+            a["wmode"] = "vertical"
+        return ("textbox", a, [structure_of(c) for c in o])
+    if isinstance(o, lt.LTTextLine):
+        return ("textline", {"bbox": _b2s(o.bbox)}, [structure_of(c) for c in o])
+    if isinstance(o, lt.LTChar):
+        return ("text", {"font": o.fontname, "bbox": _b2s(o.bbox), "size": "%.3f" % o.size, "#text": o.get_text()}, [])
+    if isinstance(o, lt.LTText) and not isinstance(o, lt.LTContainer):
+        return ("text", {"#text": o.get_text()}, [])
+    if isinstance(o, lt.LTFigure):
+        return ("figure", {"name": o.name, "bbox": _b2s(o.bbox)}, [structure_of(c) for c in o])
+    if isinstance(o, lt.LTLine):
+        return ("line", {"bbox": _b2s(o.bbox)}, [])          # linewidth is written with %d (0.5 reads 0): not among the attributes the property names
+    if isinstance(o, lt.LTRect):
+        return ("rect", {"bbox": _b2s(o.bbox)}, [])          # linewidth is written with %d (0.5 reads 0): not among the attributes the property names
+    if isinstance(o, lt.LTCurve):
+        return ("curve", {"bbox": _b2s(o.bbox)}, [])          # linewidth is written with %d (0.5 reads 0): not among the attributes the property names
+    if isinstance(o, lt.LTImage):
+        return ("image", {}, [])
+    raise KeyError(type(o).__name__)
+
+
+def _api_tree(data, la, pages):
+    """the layout trees of the selected pages, built with fresh managers, a fresh aggregator and the library's interpreter (not through high_level)"""
+    import pdfminer.converter as cv
+    import pdfminer.pdfinterp as pi
+    from pdfminer.layout import LAParams
+    from pdfminer.pdfpage import PDFPage
+    rm = pi.PDFResourceManager(caching=False)
+    dev = cv.PDFPageAggregator(rm, laparams=None if la is None else LAParams(**la))
+    it = pi.PDFPageInterpreter(rm, dev)
+    out = []
+    allp = list(PDFPage.get_pages(io.BytesIO(data), caching=False))
+    for pg in {"all": allp, "second": allp[1:2], "first-only": allp[:1]}[pages]:
+        it.process_page(pg)
+        out.append(dev.get_result())
+    return out
+
+
+def _api_call(data, otype, sink, codec, la, pages, strip, nocache):
+    from pdfminer.high_level import extract_text_to_fp
+    from pdfminer.layout import LAParams
+    fp = io.StringIO() if sink == "text" else io.BytesIO()
+    kw = {"all": {}, "second": {"page_numbers": [1]}, "first-only": {"maxpages": 1}}[pages]
+    extract_text_to_fp(io.BytesIO(data), fp, output_type=otype, codec=codec if sink != "text" else None, laparams=None if la is None else LAParams(**la), strip_control=strip,
+                       disable_caching=nocache, **kw)
+    v = fp.getvalue()
+    return v if sink == "text" else v.decode(codec)
+
+
+def _api_check(sel):
+    doc, otype, (sink, codec), la, pages = sel["doc"], ["text", "xml"][sel["otype"]], API_SINKS[sel["sink"]], API_LA[sel["la"]], API_PAGES[sel["pages"]]
+    strip, nocache, hist = bool(sel["strip"]), bool(sel["nocache"]), API_HIST[sel["hist"]]
+    data = _api_doc(doc)
+    desc = "document %s, extract_text_to_fp(output_type=%r, %s sink%s, laparams=%r, pages=%s, strip_control=%s, disable_caching=%s), call history %s" % (
+        "AB"[doc], otype, sink, "" if sink == "text" else " with codec " + codec, la, pages, strip, nocache, hist)
+    try:
+        if hist == "after-other":
+            _api_call(_api_doc(1 - doc), otype, sink, codec, la, pages, strip, nocache)
+        elif hist == "twice":
+            _api_call(data, otype, sink, codec, la, pages, strip, nocache)
+        out = _api_call(data, otype, sink, codec, la, pages, strip, nocache)
+        trees = _api_tree(data, la, pages)
+    except Exception as e:
+        return "%s: raised %s: %s" % (desc, type(e).__name__, e)
+    if otype == "text":
+        exp = "".join(tree_text(pg) for pg in trees)
+        return None if out == exp else "%s: the text output is %r, the in-order text of the layout trees is %r" % (desc, out, exp)
+    try:
+        root = ET.fromstring(out.split("?>", 1)[1] if out.startswith("<?xml") else out)
+    except ET.ParseError as e:
+        return "%s: the XML output is not well-formed: %s" % (desc, e)
+    if root.tag != "pages" or len(list(root)) != len(trees):
+        return "%s: root <%s> with %d children for %d pages" % (desc, root.tag, len(list(root)), len(trees))
+    for el, pg in zip(root, trees):
+        r = match_structure(el, structure_of(pg))
+        if r:
+            return "%s: %s" % (desc, r)
+    return None
+
+
+def h5_api(timeout=300, part=None, **kw):
+    """extract_text_to_fp itself (option plumbing, managers, converters) on two generated documents that share object numbers: for every output type, sink, layout-parameter choice,
+    page selection, strip_control, caching flag and call history the output is the text / the XML of the layout trees built independently from the same bytes"""
+    import pdfminer.high_level as hl
+    import pdfminer.converter as cv
+
+    def fn(ex):
+        sel = {"doc": ex.choice(2, "doc"), "otype": ex.choice(2, "otype"), "sink": ex.choice(len(API_SINKS), "sink"), "la": ex.choice(len(API_LA), "la"), "pages": ex.choice(len(API_PAGES), "pages"),
+               "strip": ex.choice(2, "strip"), "nocache": ex.choice(2, "nocache"), "hist": ex.choice(len(API_HIST), "hist")}
+        r = _api_check(sel)
+        ex.require(r is None, r or "", sel=sel)
+
+    def conc(m, info):
+        return info
+    return core.run_symx("H5_api", fn, [hl.extract_text_to_fp, cv.TextConverter.receive_layout, cv.XMLConverter.receive_layout, cv.PDFConverter._is_binary_stream],
+                         {"documents": "two generated two-page documents with the same object numbers and different fonts / encodings (text with < & \" and a non-ASCII letter, a form, a rectangle)",
+                          "options": "output type text/xml, sinks %r, laparams %r, pages %r, strip_control, disable_caching, histories %r" % (API_SINKS, API_LA, API_PAGES, API_HIST)},
+                         timeout, concretize=conc, part=part)
+
+
 def replay(harness, inp):
+    if harness == "H5_api":
+        return _api_check(inp["sel"])
     import pdfminer.utils as u
     if harness == "H4_shapes":
         pg, exp = shapes_case(inp["kinds"], inp["groups"])
@@ -457,6 +604,7 @@ def jobs(tier):
     t = 300 if tier == "quick" else 1800
     J = [Job("H1_enc", "h1_enc", {"maxlen": 3 if tier == "quick" else 4}, t, "H1_enc"), Job("H2_xml:controls", "h2_controls", {}, 100, "H2_xml")]
     J += [Job("H4_shapes:%d" % k, "h4_shapes", {"n": 3 if tier == "quick" else 4, "part": [k, 4, 6]}, t, "H4_shapes") for k in range(4)]
+    J += [Job("H5_api:%d" % k, "h5_api", {"part": [k, 4, 4]}, 300, "H5_api") for k in range(4)]
     for k in range(8):
         J.append(Job("H2_xml:%d" % k, "h2_xml", {"maxlen": ml, "part": [k, 8, 9]}, t, "H2_xml"))
     for k in range(7):
